@@ -110,7 +110,116 @@ def dlint_fatal_determinism(ctx, prefix="C19"):
         ctx.violation("%s.dlint-report-depends-on-schedule-with-duplicate-paths" % prefix,
                       "a path listed several times: stderr/exit differ between thread counts %d and %d" % (a[0], b[0]),
                       {"dir": root, "run_a": {"threads": a[0], "exit": a[1], "stderr": a[2][-600:]}, "run_b": {"threads": b[0], "exit": b[1], "stderr": b[2][-600:]}})
-    return len(runs) + len(druns)
+    return len(runs) + len(druns) + dlint_config_files(ctx, dl, prefix)
+
+
+def dlint_config_files(ctx, dl, prefix):
+    """File lists that come from --config (absolute paths, globs, excludes) together with command-line files: every selected
+    dirty file is reported exactly once per listing, blocks come in the order of the printed paths, and neither the order of
+    the config's entries, nor the order of the arguments, nor the thread count changes the report."""
+    import re as _re
+    root = os.path.join(lib.WORK, "dlint-config-%s" % prefix)
+    shutil.rmtree(root, ignore_errors=True)
+    os.makedirs(os.path.join(root, "sub"))
+    rng = random.Random(ctx.seed + 1901)
+    files = {"a.ts": True, "b.ts": False, "c.ts": True, "d.ts": True, "sub/e.ts": True, "sub/f.ts": False, "sub/g.ts": True, "sub/x.ts": True}
+    for nm, dirty in files.items():
+        open(os.path.join(root, nm), "w").write("debugger;\n" if dirty else "export {};\n")
+    ab = lambda nm: os.path.join(os.path.realpath(root), nm)
+    plans = [  # (config include, config exclude, command-line files, files expected to be linted)
+        ([ab("a.ts")], [], ["b.ts", "c.ts"], ["a.ts", "b.ts", "c.ts"]),
+        ([ab("b.ts"), ab("c.ts")], [], [], ["b.ts", "c.ts"]),
+        ([ab("c.ts"), ab("b.ts")], [], [], ["b.ts", "c.ts"]),
+        ([ab("b.ts"), ab("a.ts"), ab("sub/f.ts"), ab("d.ts")], [], [], ["a.ts", "b.ts", "d.ts", "sub/f.ts"]),
+        ([ab("sub/f.ts"), ab("sub/e.ts"), ab("a.ts")], [], ["d.ts"], ["a.ts", "d.ts", "sub/e.ts", "sub/f.ts"]),
+        (["sub/*.ts"], ["sub/x.ts"], ["a.ts"], ["a.ts", "sub/e.ts", "sub/f.ts", "sub/g.ts"]),
+        (["sub/*.ts", ab("c.ts"), ab("d.ts")], [], [], ["c.ts", "d.ts", "sub/e.ts", "sub/f.ts", "sub/g.ts", "sub/x.ts"]),
+        (["*.ts"], [], [], ["a.ts", "b.ts", "c.ts", "d.ts", "sub/e.ts", "sub/f.ts", "sub/g.ts", "sub/x.ts"]),     # gitignore-style: any depth
+    ]
+    n = 0
+    for pi, (inc, exc, cli, want_files) in enumerate(plans):
+        reports = []
+        for rep in range(4):
+            inc2 = inc[:]; cli2 = cli[:]
+            if rep:
+                rng.shuffle(inc2); rng.shuffle(cli2)
+            cfgp = os.path.join(root, "cfg-%d-%d.json" % (pi, rep))
+            json.dump({"rules": {"include": ["no-debugger"]}, "files": {"include": inc2, "exclude": exc}}, open(cfgp, "w"))
+            th = (1, 2, 8, 16)[rep]
+            rc, so, se = run_dlint(dl, root, ["--config", cfgp, "--format", "compact"] + cli2, th)
+            n += 1
+            lines, cnt = split_count(se)
+            paths = [_re.sub(r": line \d+, col \d+, .*$", "", l) for l in lines if _re.search(r": line \d+, col \d+, ", l)]
+            rel = [os.path.relpath(q.replace("file://", ""), os.path.realpath(root)) if os.path.isabs(q.replace("file://", "")) else q for q in paths]
+            want_dirty = sorted(f for f in want_files if files[f])
+            if sorted(rel) != want_dirty or cnt != len(want_dirty):
+                ctx.violation("%s.dlint-config-file-list" % prefix, "config include %s exclude %s + arguments %s: reported files %s (count %d), expected %s" % (inc2, exc, cli2, rel, cnt, want_dirty),
+                              {"dir": root, "config": cfgp, "args": cli2, "threads": th, "stderr": se[-800:]})
+                break
+            if paths != sorted(paths):
+                ctx.violation("%s.dlint-config-report-order" % prefix, "the blocks of the report are not in path order: %s" % paths, {"dir": root, "config": cfgp, "args": cli2, "threads": th, "stderr": se[-800:]})
+                break
+            reports.append(se)
+        if len(set(reports)) > 1:
+            ctx.violation("%s.dlint-config-report-depends-on-listing-order" % prefix, "the same file set listed in another order gives another report", {"dir": root, "plan": pi, "reports": reports[:2]})
+    return n
+
+
+def dlint_selection(ctx, dl, prefix, rng):
+    """--rule and --config (tags / include / exclude, keys present or omitted) run exactly the selected rules."""
+    evaluations = 0
+    # rule selection: --rule and --config run exactly the selected rules
+    seld = os.path.join(lib.WORK, "dlint-select-%s" % prefix)
+    shutil.rmtree(seld, ignore_errors=True)
+    os.makedirs(seld)
+    src = ("debugger;\nvar a = 1;\nif (a == 1) { }\nexport {};\nconsole.log(1);\nenum E {}\ninterface I {}\nwindow.x = 1;\nconst l = window.location;\n"
+           "function f(a, a2) { if (a) {} else {} }\nclass A { constructor() {} }\nfor (;;) {}\nlet u: any = 1;\n// TODO\nnew Symbol();\n")
+    open(os.path.join(seld, "s.ts"), "w").write(src)
+    reg = lib.vh_registry()
+    tagmap = {r["code"]: set(r["tags"]) for r in reg["rules"]}
+    allcodes = sorted(tagmap)
+    prefix_rules = [c for c in allcodes if any(o != c and o.startswith(c) for o in allcodes)]
+    sel_cases = [("--rule", c, None) for c in ["no-debugger", "eqeqeq", "no-console"] + prefix_rules]
+    for i in range(6 if ctx.tier == "quick" else 40):
+        cfg = {"rules": {"tags": rng.choice([[], ["recommended"], ["jsx", "react"], ["recommended", "fresh"]]),
+                         "include": rng.sample(["no-console", "eqeqeq", "no-var", "nope", "no-debugger"], rng.randint(0, 3)),
+                         "exclude": rng.sample(["no-debugger", "no-var", "eqeqeq", "nope"], rng.randint(0, 2))}}
+        p = os.path.join(seld, "cfg%d.json" % i)
+        written = {"rules": dict(cfg["rules"])}
+        if i % 3 == 1:
+            # an omitted key means the empty list
+            for key in ("tags", "include", "exclude"):
+                if not written["rules"][key] and rng.random() < 0.8:
+                    del written["rules"][key]
+        json.dump(written, open(p, "w"))
+        sel_cases.append(("--config", p, cfg))
+    for i, (written, cfg) in enumerate([({"rules": {"include": ["no-console"]}}, {"rules": {"tags": [], "include": ["no-console"], "exclude": []}}),
+                                        ({"rules": {"exclude": ["no-var"]}}, {"rules": {"tags": [], "include": [], "exclude": ["no-var"]}}),
+                                        ({}, {"rules": {"tags": [], "include": [], "exclude": []}}),
+                                        ({"rules": {}}, {"rules": {"tags": [], "include": [], "exclude": []}}),
+                                        ({"rules": {"tags": ["recommended"]}}, {"rules": {"tags": ["recommended"], "include": [], "exclude": []}})]):
+        p = os.path.join(seld, "cfgk%d.json" % i)
+        json.dump(written, open(p, "w"))
+        sel_cases.append(("--config", p, cfg))
+    for (flag, val, cfg) in sel_cases:
+        rc, so, se = run_dlint(dl, seld, [flag, val, "--format", "compact"] + ([] if False else ["s.ts"]), 2)
+        evaluations += 1
+        lines, n = split_count(se)
+        got_codes = sorted(l[l.rfind("(") + 1:-1] for l in lines if l.endswith(")"))
+        if cfg is None:
+            want_rules = [val]
+        else:
+            T, X, I = set(cfg["rules"]["tags"]), set(cfg["rules"]["exclude"]), set(cfg["rules"]["include"])
+            want_rules = sorted(c for c in tagmap if ((tagmap[c] & T) or c in I) and c not in X)
+        if not want_rules:
+            if rc == 0:
+                ctx.violation("%s.no-rules-accepted" % prefix, "no rule selected but exit 0", {"cfg": cfg})
+            continue
+        res = lib.run_vh("lint", [{"src": src, "media": "ts", "rules": want_rules, "jsx": "React.createElement", "jsxfrag": "React.Fragment"}])[0]
+        want_codes = sorted(d["code"] for d in res.get("ok", []))
+        if got_codes != want_codes:
+            ctx.violation("%s.rule-selection" % prefix, "%s %s ran codes %s, expected %s" % (flag, val, got_codes, want_codes), {"cfg": cfg, "stderr": se[-1500:]})
+    return evaluations
 
 
 @register("C19")
@@ -218,42 +327,7 @@ def c19(ctx):
         exp_order = [nm for nm in order]
         if (m_fatal == 1) != any_fatal or m_code != (1 if (any_fatal or total > 0) else 0) or (not any_fatal and (m_count != total or m_order != exp_order)) or m_same != 1:
             mism.append({"model": line, "impl_total": total, "impl_fatal": any_fatal, "impl_order": order})
-    # rule selection: --rule and --config run exactly the selected rules
-    seld = os.path.join(root, "select")
-    os.makedirs(seld)
-    src = ("debugger;\nvar a = 1;\nif (a == 1) { }\nexport {};\nconsole.log(1);\nenum E {}\ninterface I {}\nwindow.x = 1;\nconst l = window.location;\n"
-           "function f(a, a2) { if (a) {} else {} }\nclass A { constructor() {} }\nfor (;;) {}\nlet u: any = 1;\n// TODO\nnew Symbol();\n")
-    open(os.path.join(seld, "s.ts"), "w").write(src)
-    reg = lib.vh_registry()
-    tagmap = {r["code"]: set(r["tags"]) for r in reg["rules"]}
-    allcodes = sorted(tagmap)
-    prefix_rules = [c for c in allcodes if any(o != c and o.startswith(c) for o in allcodes)]
-    sel_cases = [("--rule", c, None) for c in ["no-debugger", "eqeqeq", "no-console"] + prefix_rules]
-    for i in range(6 if ctx.tier == "quick" else 40):
-        cfg = {"rules": {"tags": rng.choice([[], ["recommended"], ["jsx", "react"], ["recommended", "fresh"]]),
-                         "include": rng.sample(["no-console", "eqeqeq", "no-var", "nope", "no-debugger"], rng.randint(0, 3)),
-                         "exclude": rng.sample(["no-debugger", "no-var", "eqeqeq", "nope"], rng.randint(0, 2))}}
-        p = os.path.join(seld, "cfg%d.json" % i)
-        json.dump(cfg, open(p, "w"))
-        sel_cases.append(("--config", p, cfg))
-    for (flag, val, cfg) in sel_cases:
-        rc, so, se = run_dlint(dl, seld, [flag, val, "--format", "compact"] + ([] if False else ["s.ts"]), 2)
-        evaluations += 1
-        lines, n = split_count(se)
-        got_codes = sorted(l[l.rfind("(") + 1:-1] for l in lines if l.endswith(")"))
-        if cfg is None:
-            want_rules = [val]
-        else:
-            T, X, I = set(cfg["rules"]["tags"]), set(cfg["rules"]["exclude"]), set(cfg["rules"]["include"])
-            want_rules = sorted(c for c in tagmap if ((tagmap[c] & T) or c in I) and c not in X)
-        if not want_rules:
-            if rc == 0:
-                ctx.violation("C19.no-rules-accepted", "no rule selected but exit 0", {"cfg": cfg})
-            continue
-        res = lib.run_vh("lint", [{"src": src, "media": "ts", "rules": want_rules, "jsx": "React.createElement", "jsxfrag": "React.Fragment"}])[0]
-        want_codes = sorted(d["code"] for d in res.get("ok", []))
-        if got_codes != want_codes:
-            ctx.violation("C19.rule-selection", "%s %s ran codes %s, expected %s" % (flag, val, got_codes, want_codes), {"cfg": cfg, "stderr": se[-1500:]})
+    evaluations += dlint_selection(ctx, dl, "C19", rng)
     evaluations += dlint_fatal_determinism(ctx, "C19")
     ctx.correspondence("dlint binary vs per-file reports merged by the model (threads 1-16, shuffled argument orders, %d repetitions)" % reps,
                        evaluations, len(nontriv), mism[:5],
